@@ -154,7 +154,7 @@ class Gen:
         k = r.random()
         if k < 0.35:
             return r.choice(STR_BOUNDARY)
-        n = r.choice((1, 2, 3, 5, 17, 100)) if k < 0.95 else r.randint(200, self.max_bytes)
+        n = r.choice((1, 2, 3, 5, 17, 100)) if k < 0.95 else r.randint(min(200, self.max_bytes), self.max_bytes)
         out = []
         for _ in range(n):
             p = r.random()
@@ -177,7 +177,7 @@ class Gen:
         k = r.random()
         if k < 0.35:
             return r.choice(BYTES_BOUNDARY)
-        n = r.choice((1, 2, 3, 4, 5, 8, 9, 31, 257)) if k < 0.95 else r.randint(300, self.max_bytes)
+        n = r.choice((1, 2, 3, 4, 5, 8, 9, 31, 257)) if k < 0.95 else r.randint(min(300, self.max_bytes), self.max_bytes)
         return r.randbytes(n)
 
     def leaf(self):
